@@ -1078,14 +1078,17 @@ class AxisDescriptor(AbstractAxisDescriptor):
         backward = sorted((design, user) for user, design in axis_map)
         design0, user0 = backward[0]
         if v <= design0:
-            return v + user0 - design0
+            return user0 + (v - design0)
         for (design1, user1), (design2, user2) in zip(backward, backward[1:]):
             if design1 <= v <= design2:
                 if design1 == design2:
                     return user1
+                if v == design2:
+                    # exact at the map points, whatever the float round-off
+                    return user2
                 return user1 + (user2 - user1) * (v - design1) / (design2 - design1)
         designN, userN = backward[-1]
-        return v + userN - designN
+        return userN + (v - designN)
 
 
 class DiscreteAxisDescriptor(AbstractAxisDescriptor):
